@@ -119,4 +119,64 @@ theorem finishCurrent_named (s : St) (n : String) (cf : CFlag) (b : Builder) (hc
   · simp [St.finishCurrent, push_eq, hpos]
   · simp [St.finishCurrent, push_eq, hpos]
 
+
+theorem headKind_of_all (rs : List Rule) (k : Kind) (hk : ∀ r ∈ rs, r.kind = k) (hne : rs ≠ []) : headKind rs = k := by
+  cases rs with
+  | nil => exact absurd rfl hne
+  | cons r rs => simp [headKind, hk r (by simp)]
+
+/-- **A named lookup block**: from `start_lookup_block` (name recorded, no current lookup) to
+    `finish_current` at its end. -/
+theorem block_core (fx : Fixes) (U : List (List Glyph)) (n : String) (fl : List Flag) (rs : List Rule) (k : Kind)
+    (hfl : ∀ f ∈ fl, FlagNorm f ∧ ∀ c, f.attach = some c → sortedSet c ∈ U)
+    (hk : ∀ r ∈ rs, r.kind = k) (hne : rs ≠ [])
+    (s2 : St) (f0 : Flag) (hcur : s2.cur = none) (hcn : s2.curName = some n) (hi : IdsInv s2)
+    (hu : ∀ c ∈ s2.attachIds, c ∈ U) (hc : FlagCode s2.attachIds s2.filterIds s2.flag f0) :
+    ∃ (s4 : St) (id : LookupId) (ls : List OT.Lookup),
+      ((fl.map BStmt.flag ++ rs.map BStmt.rule).foldl (St.blockStmt fx) s2).finishCurrent = (s4, some id) ∧
+      (id = if k.isPos then .gpos s2.gpos.length else .gsub s2.gsub.length) ∧
+      CompiledRun fx s4.attachIds s4.filterIds (fl.getLast?.getD f0) rs id ls ∧
+      (if k.isPos then s4.gpos = s2.gpos ++ ls ∧ s4.gsub = s2.gsub else s4.gsub = s2.gsub ++ ls ∧ s4.gpos = s2.gpos) ∧
+      s4.named = (n, id) :: s2.named ∧ s4.cur = none ∧ s4.curName = none ∧
+      FlagCode s4.attachIds s4.filterIds s4.flag (fl.getLast?.getD f0) ∧ IdsInv s4 ∧ (∀ c ∈ s4.attachIds, c ∈ U) ∧
+      (∃ a, s4.attachIds = s2.attachIds ++ a) ∧ (∃ f, s4.filterIds = s2.filterIds ++ f) ∧
+      s4.langsys = s2.langsys ∧ s4.active = s2.active ∧ s4.script = s2.script ∧ s4.features = s2.features := by
+  rw [List.foldl_append, foldl_blockStmt_flags, foldl_blockStmt_rules]
+  obtain ⟨r1, r2, r3, r4, r5, r6, r7, r8, r9, r10, r11, r12, r13⟩ := block_flags U fl hfl s2 f0 hi hu hc
+  generalize fl.foldl St.setLookupFlag s2 = s2' at r1 r2 r3 r4 r5 r6 r7 r8 r9 r10 r11 r12 r13
+  obtain ⟨hctx, hg, hp, hact, hcur3⟩ := block_rules fx k rs hk hne s2' (r7.trans hcur)
+  generalize rs.foldl (St.addRule fx) s2' = s3 at hctx hg hp hact hcur3
+  obtain ⟨c1, c2, c3, c4, c5, c6, c7, c8⟩ := hctx
+  have hfin := finishCurrent_named s3 n _ _ hcur3 (c1.trans (r8.trans hcn))
+  simp only at hfin
+  have hbk : (rs.foldl (Builder.add fx s2'.gsub.length s2'.namedId) (Builder.new k)).kind = k := by
+    rw [Builder.foldl_add_kind, Builder.new_kind]
+  rw [hbk] at hfin
+  obtain ⟨f1, f2, f3, f4, f5, f6, f7, f8, f9, f10, f11, f12⟩ := hfin
+  have hhk := headKind_of_all rs k hk hne
+  obtain ⟨_, _, ⟨a, ha⟩, ⟨ff, hff⟩⟩ := r4
+  refine ⟨s3.finishCurrent.1, if k.isPos then .gpos s2.gpos.length else .gsub s2.gsub.length,
+    builtLookups s2'.flag (rs.foldl (Builder.add fx s2'.gsub.length s2'.namedId) (Builder.new k)), ?_, rfl, ?_, ?_, ?_,
+    f2, f3, ?_, ?_, ?_, ⟨a, by rw [f7, c4, ha]⟩, ⟨ff, by rw [f8, c5, hff]⟩, by rw [f9, c6, r10], by rw [f10, hact, r11],
+    by rw [f11, c7, r12], by rw [f12, c8, r13]⟩
+  · apply Prod.ext
+    · rfl
+    · simp only [f1, hg, hp, r5, r6]
+  · refine ⟨hne, fun r hr => (hk r hr).trans hhk.symm, ?_, s2'.flag, s2'.namedId, s2'.gsub.length, ?_, ?_, ?_⟩
+    · rw [hhk]; cases k.isPos <;> rfl
+    · rw [f7, f8, c4, c5]; exact r1
+    · intro hpos
+      rw [hhk] at hpos
+      simp [hpos, LookupId.gsubIdx, r5]
+    · rw [hhk]
+  · by_cases hpos : k.isPos = true
+    · simp only [hpos, ↓reduceIte] at f5 ⊢
+      rw [f5.1, f5.2, hp, hg, r5, r6]; exact ⟨rfl, rfl⟩
+    · simp only [hpos, Bool.false_eq_true, ↓reduceIte] at f5 ⊢
+      rw [f5.1, f5.2, hp, hg, r5, r6]; exact ⟨rfl, rfl⟩
+  · rw [f4, hg, hp, r5, r6, c2, r9]
+  · rw [f7, f8, f6, c3, c4, c5]; exact r1
+  · unfold IdsInv; rw [f7, f8, c4, c5]; exact r2
+  · rw [f7, c4]; exact r3
+
 end Fontc.FeaCompile
